@@ -147,6 +147,10 @@ def _innermost_loop(outer, node):
 @rule('C07', 'C07-R1', 'removal-index compensation: elements selected by ascending original index j are removed with '
                        'pop(j - #already removed) (or in descending order with pop(j)) from the container the indices were taken from')
 def r1(ctx):
+    _model_or_structural(ctx, 'C07-R1', _r1_structural, 'removal:model', 'the molecules left in each buffer are the not ejectable ones in their old order')
+
+
+def _r1_structural(ctx):
     ix = ctx.ix
     f = ctx.fn(MOLITER, FN)
     mod = ix.module(MOLITER)
@@ -278,6 +282,151 @@ def _selection_provenance(f, L, cont, alias):
 
 
 # ---------------------------------------------------------------------------------------------
+def ejection_model(ctx):
+    """The periodic ejection step of the iterator, lifted out of the read loop and run by the abstract interpreter on model buffers: up to four
+    molecules (tokens that only answer `can_be_yielded`, `len`, `__finalise__`) in every combination of ejectable / not ejectable, for both pooling
+    methods.  The step has to yield exactly the ejectable molecules (each once, finalised first), leave the others in their buffer in their old
+    order, keep the two fragment counters coherent, and ask can_be_yielded with the span of the current fragment.  Returns (ok, cases, witness) or
+    None when the step uses constructs outside the interpreted subset (the structural rules decide then).  Cached per run."""
+    if hasattr(ctx, '_ejection_model'):
+        return ctx._ejection_model
+    import copy
+    import itertools
+    from ..consteval import run_function, Unfoldable, Raised
+    ctx._ejection_model = None
+    try:
+        f = ctx.fn(MOLITER, FN)
+        main = _main_loop(f)
+    except AnalysisError:
+        return None
+    gates = [s for s in walk_no_nested(main) if isinstance(s, ast.If) and 'check_eject_every' in src(s.test)]
+    if len(gates) != 1:
+        return None
+    frag = None
+    for a in walk_no_nested(main):
+        if isinstance(a, ast.Assign) and len(a.targets) == 1 and isinstance(a.targets[0], ast.Name) and isinstance(a.value, ast.Call) and 'fragment_class' in src(a.value.func):
+            frag = a.targets[0].id
+    frag = frag or 'fragment'
+    step = ast.FunctionDef(name='ejection_step', args=ast.arguments(posonlyargs=[], args=[ast.arg(arg='self'), ast.arg(arg=frag)], kwonlyargs=[], kw_defaults=[], defaults=[]),
+                           body=copy.deepcopy(gates[0].body), decorator_list=[], lineno=gates[0].lineno, col_offset=0)
+    ast.fix_missing_locations(step)
+    n = 0
+
+    def tok(i, y):
+        return ('mol', i, y) + (('pad',) if i % 2 else ())
+    try:
+        for pm in (0, 1):
+            for size in range(0, 5):
+                for mask in itertools.product((False, True), repeat=size):
+                    toks = [tok(i, y) for i, y in enumerate(mask)]
+                    layouts = [None] if pm == 0 else ([(size,)] if size < 2 else [(k, size - k) for k in range(1, size)])
+                    for lay in layouts:
+                        n += 1
+                        events = []
+                        asked = []
+
+                        def hook(ev, call, env, events=events, asked=asked):
+                            if isinstance(call.func, ast.Attribute):
+                                at = call.func.attr
+                                if at == 'get_span':
+                                    return ('chr1', 0, 100)
+                                if at == 'can_be_yielded':
+                                    t = ev.ev(call.func.value, env)
+                                    asked.append(tuple(ev.ev(x, env) for x in call.args))
+                                    return t[2]
+                                if at == '__finalise__':
+                                    events.append(('fin', ev.ev(call.func.value, env)))
+                                    return None
+                                if at == 'yield_func' and src(call.func.value) == 'self':
+                                    t = ev.ev(call.args[0], env)
+                                    events.append(('yield', t))
+                                    return [t]
+                            return NotImplemented
+                        env = {'self.pooling_method': pm, 'self.waiting_fragments': 1000, 'self.yielded_fragments': 0, 'self.check_ejection_iter': 7, 'self.check_eject_every': 1,
+                               'self.deleted_fragments': 0, 'self.max_buffer_size': None, 'self.molecules': [], 'self.molecules_per_cell': {}}
+                        if pm == 0:
+                            env['self.molecules'] = list(toks)
+                            before = {'L': list(toks)}
+                        else:
+                            groups, k0 = {}, 0
+                            for gi, gl in enumerate(lay):
+                                groups[f'g{gi}'] = list(toks[k0:k0 + gl])
+                                k0 += gl
+                            env['self.molecules_per_cell'] = groups
+                            before = {g_: list(v_) for g_, v_ in groups.items()}
+                        out = {}
+                        ys = run_function(step, ['<self>', '<fragment>'], env=env, budget=60000, call_hook=hook, out_scope=out) or []
+                        after = {'L': out.get('self.molecules')} if pm == 0 else dict(out.get('self.molecules_per_cell') or {})
+                        want_y = [t for t in toks if t[2]]
+                        case = {'pooling_method': pm, 'buffer (ejectable?)': [t[2] for t in toks] if pm == 0 else {g_: [t[2] for t in v_] for g_, v_ in before.items()}}
+                        if sorted(ys, key=str) != sorted(want_y, key=str):
+                            lost = [t[1] for t in want_y if t not in ys]
+                            extra = [t[1] for t in ys if not t[2]]
+                            dup = sorted({t[1] for t in ys if ys.count(t) > 1})
+                            ctx._ejection_model = (False, n, dict(case, problem='yielded molecules differ from the ejectable ones', not_yielded=lost, yielded_but_not_ejectable=extra, yielded_twice=dup))
+                            return ctx._ejection_model
+                        for t in ys:
+                            if ('fin', t) not in events or events.index(('fin', t)) > events.index(('yield', t)):
+                                ctx._ejection_model = (False, n, dict(case, problem=f'molecule {t[1]} is yielded without being finalised first'))
+                                return ctx._ejection_model
+                        for g_, v_ in before.items():
+                            keep_ = [t for t in v_ if not t[2]]
+                            left = list(after.get(g_) or [])
+                            if left != keep_:
+                                ctx._ejection_model = (False, n, dict(case, problem=f'buffer {g_ if pm else "self.molecules"} holds molecules {[t[1] for t in left]} afterwards, expected the not ejectable ones '
+                                                                                    f'{[t[1] for t in keep_]} in their old order'))
+                                return ctx._ejection_model
+                        tot = sum(len(t) for t in want_y)
+                        if out.get('self.waiting_fragments') != 1000 - tot or out.get('self.yielded_fragments') != tot:
+                            ctx._ejection_model = (False, n, dict(case, problem=f'fragment counters: waiting {out.get("self.waiting_fragments")} (expected {1000 - tot}), yielded {out.get("self.yielded_fragments")} (expected {tot})'))
+                            return ctx._ejection_model
+                        if any(a_ != ('chr1', 100) for a_ in asked) or len(asked) < len(toks):
+                            ctx._ejection_model = (False, n, dict(case, problem=f'can_be_yielded asked {len(asked)} times with {sorted(set(asked))[:2]}: expected once per buffered molecule with (contig, end) of the current fragment'))
+                            return ctx._ejection_model
+    except (Unfoldable, Raised):
+        return None
+    except Exception:
+        return None
+    ctx._ejection_model = (True, n, None)
+    return ctx._ejection_model
+
+
+def _model_or_structural(ctx, rid, structural, key, text_ok):
+    """run the structural rule; where it cannot decide (anchor not found / undecided obligations) the interpreted model of the ejection step
+    decides instead"""
+    from ..core import Ctx, UNDECIDED
+    sub = Ctx(ctx.ix, 'C07', ctx.tier)
+    err = None
+    try:
+        structural(sub)
+    except AnalysisError as e_:
+        err = e_
+    und = [o for o in sub.obligations if o.status == UNDECIDED]
+    for k_, v_ in sub.counters.items():
+        if isinstance(v_, set):
+            ctx.counters[k_] |= v_
+        else:
+            ctx.counters[k_] += v_
+    for k_, v_ in getattr(sub, 'exhaustive', {}).items():
+        ctx.exhaustive[k_] = v_
+    if err is None and not und:
+        ctx.obligations.extend(sub.obligations)
+        return
+    m = ejection_model(ctx)
+    if m is None:
+        ctx.obligations.extend(sub.obligations)
+        if err is not None:
+            raise err
+        return
+    ok, ncase, wit = m
+    ctx.obligations.extend(o for o in sub.obligations if o.status != UNDECIDED)
+    ctx.counters['abstract_cases'] += ncase
+    f = ctx.fn(MOLITER, FN)
+    ctx.emit(rid, ok, MOLITER, f, f'ejection step interpreted on {ncase} model buffers (both pooling methods, up to 4 molecules, every ejectable / not ejectable pattern): ' +
+             (text_ok if ok else f'{wit.get("problem")} - case {({k_: v_ for k_, v_ in wit.items() if k_ != "problem"})}'), key=key, witness=wit,
+             what='MoleculeIterator ejection step: ' + (wit.get('problem') if wit else ''))
+
+
 def _main_loop(f):
     loops = [s for s in f.body if isinstance(s, ast.For)]
     for l in loops:
@@ -416,6 +565,10 @@ def r2(ctx):
 @rule('C07', 'C07-R3', 'every molecule popped from a buffer is finalised and yielded in the same loop body; after the '
                        'read loop every buffer kind is drained completely (finalise + yield each element)')
 def r3(ctx):
+    _model_or_structural(ctx, 'C07-R3', _r3_structural, 'pop-then-yield:model', 'every ejected molecule is finalised and yielded exactly once')
+
+
+def _r3_structural(ctx):
     ix = ctx.ix
     f = ctx.fn(MOLITER, FN)
     alias = _aliases(f, ix.module(MOLITER))
@@ -523,6 +676,11 @@ def r3(ctx):
                        'position is the span of the *current* fragment, and can_be_yielded is "other contig, or '
                        'position outside [spanStart - margin, spanEnd + margin]" with the same positive margin on both sides')
 def r4(ctx):
+    _model_or_structural(ctx, 'C07-R4', _r4_selection, 'selection-guard:model', 'exactly the molecules whose can_be_yielded(span of the current fragment) holds leave the buffers')
+    _r4_predicate(ctx)
+
+
+def _r4_selection(ctx):
     ix = ctx.ix
     f = ctx.fn(MOLITER, FN)
     # selection condition
@@ -579,6 +737,9 @@ def r4(ctx):
         and len(asg[0].targets[0].elts) == 3
     ctx.emit('C07-R4', ok, MOLITER, asg[0] if asg else f, 'ejection reference (current_chrom, _, current_position) is the span of the fragment just processed',
              key='position-provenance')
+
+
+def _r4_predicate(ctx):
     # the predicate
     g = ctx.fn(MOLECULE, 'Molecule.can_be_yielded')
     pos = g.args.args[2].arg
@@ -799,24 +960,22 @@ def r8(ctx):
     f = ctx.fn(MOLITER, 'MoleculeIterator.__iter__')
     calls = [c for c in walk_no_nested(f) if isinstance(c, ast.Call) and isinstance(c.func, ast.Attribute) and c.func.attr == 'can_be_yielded']
     ctx.need('C07-R8', len(calls), 1, 'can_be_yielded calls in the iterator')
-    loops = [l for l in walk_no_nested(f) if isinstance(l, ast.For) and any(x is calls[0] for x in ast.walk(l))]
+    # the elements at hand: targets of the loops of the iterator (the fragment of the read loop is one of them)
+    loopvars = {n.id for l in walk_no_nested(f) if isinstance(l, (ast.For, ast.While)) for n in ast.walk(l) if isinstance(n, ast.Name) and isinstance(n.ctx, ast.Store)}       # bound anew in every round
     frag = None
-    for l in loops:         # outermost loop: over the fragments
-        if isinstance(l.target, ast.Name):
-            frag = l.target.id
-            break
     bad, unsure = [], []
     for c in calls:
         for a in c.args[:2]:
             if not isinstance(a, ast.Name):
-                if not (isinstance(a, ast.Subscript) and frag and src(a.value) == f'{frag}.get_span()'):
+                if not (isinstance(a, ast.Subscript) and isinstance(a.value, ast.Call) and isinstance(a.value.func, ast.Attribute) and a.value.func.attr == 'get_span'
+                        and isinstance(a.value.func.value, ast.Name) and a.value.func.value.id in loopvars):
                     unsure.append((c, src(a)))
                 continue
             defs = [st for st in walk_no_nested(f) if isinstance(st, (ast.Assign, ast.AugAssign)) and any(isinstance(n, ast.Name) and n.id == a.id and isinstance(n.ctx, ast.Store)
                     for t in (st.targets if isinstance(st, ast.Assign) else [st.target]) for n in ast.walk(t))]
             for d in defs:
                 v = d.value
-                from_span = isinstance(v, ast.Call) and isinstance(v.func, ast.Attribute) and v.func.attr == 'get_span' and (frag is None or src(v.func.value) == frag)
+                from_span = isinstance(v, ast.Call) and isinstance(v.func, ast.Attribute) and v.func.attr == 'get_span' and isinstance(v.func.value, ast.Name) and v.func.value.id in loopvars
                 from_span = from_span or (isinstance(v, ast.Subscript) and isinstance(v.value, ast.Call) and isinstance(v.value.func, ast.Attribute) and v.value.func.attr == 'get_span')
                 if from_span:
                     continue
